@@ -23,7 +23,11 @@ C17Step(s, ev) ==
   ELSE LET n == <<ev.doc, ev.node, 0>>
            \* the count / from patterns may refer to a parameter of the numbering template (ev.t: its value at THIS instantiation)
            c == [f |-> Forest, n |-> n, pos |-> 1, size |-> 1, vars |-> IF "t" \in DOMAIN ev THEN [x \in {"t"} |-> SV(ev.t)] ELSE <<>>, cur |-> n, keys |-> <<>>]
-       IN IF Ambiguous(ev.instr, n, c) THEN [ok |-> TRUE, st |-> s, drop |-> TRUE, msg |-> ""]
+           \* 7.7.1 defines the alphabetic and roman sequences from 1 on: how a 0 (level="any", nothing counted) is written under a letter
+           \* token is not defined (Xalan: nothing for a / A, "0" for i / I; libxslt: "0") - not judged
+           letterToken == \E k \in 1..Len(ev.fmt) : ev.fmt[k] \in {97, 65, 105, 73}
+       IN IF Ambiguous(ev.instr, n, c) \/ (letterToken /\ \E k \in 1..Len(NumberList(ev.instr, n, c)) : NumberList(ev.instr, n, c)[k] = 0)
+          THEN [ok |-> TRUE, st |-> s, drop |-> TRUE, msg |-> ""]
           ELSE LET lst == NumberList(ev.instr, n, c)
                    want == FormatList(lst, ev.fmt) IN
                [ok |-> want = ev.out, st |-> s, cont |-> TRUE, drop |-> FALSE,
